@@ -1,0 +1,89 @@
+//go:build verif
+
+// Contracts checked by /verif/govc (comment-only file; compiled only with -tags verif).
+// Syntax: see /verif/DESIGN.md section 2.3.
+
+package jerr
+
+//@ specfn cntNL(c []byte, nl byte, k int) int
+//@ axiom cntNL0 : forall c []byte, nl byte :: cntNL(c, nl, 0) == 0
+//@ axiom cntNLS : forall c []byte, nl byte, k int :: k > 0 ==> cntNL(c, nl, k) == cntNL(c, nl, k-1) + (c[k-1] == nl ? 1 : 0)
+
+//@ pred isNL(b byte) = b == '\n' || b == '\r'
+//@ pred clampPos(content []byte, position int) = position < len(content) ? position : len(content) - 1
+
+//@ func DetectNewLineSymbol
+//@   tag C02
+//@   pure
+//@   ensures isNL(ret)
+//@   ensures (forall k :: 0 <= k && k < len(content) ==> !isNL(content[k])) ==> ret == '\n'
+//@   ensures ret == '\n' || (exists e :: 0 <= e && e < len(content) && content[e] == ret)
+//@   loop 1 invariant 0 <= i && i <= len(content) && isNL(newLineByte)
+//@   loop 1 invariant found ==> i > 0 && newLineByte == content[i-1] && isNL(content[i-1])
+//@   loop 1 invariant newLineByte == '\n' || (exists e :: 0 <= e && e < i && content[e] == newLineByte)
+//@   loop 1 invariant !found ==> newLineByte == '\n' && (forall k :: 0 <= k && k < i ==> !isNL(content[k]))
+//@   loop 1 decreases len(content) - i
+
+//@ func LineBeginning
+//@   tag C02
+//@   pure
+//@   ensures len(content) == 0 ==> ret == 0
+//@   ensures len(content) > 0 ==> ret <= clampPos(content, position) + 1
+//@   ensures position < len(content) ==> ret <= position
+//@   ensures ret == 0 || (content[ret-1] == nl && ret-1 != position)
+//@   ensures forall j :: ret <= j && j <= clampPos(content, position) && j != position ==> content[j] != nl
+//@   loop 1 invariant i < len(content) && i <= position && max == len(content) - 1 && i <= max
+//@   loop 1 invariant forall j :: i < j && j <= clampPos(content, position) && j != position ==> content[j] != nl
+//@   loop 1 decreases i
+
+//@ func LineEnd
+//@   tag C02
+//@   pure
+//@   requires position <= len(content)
+//@   ensures ret <= len(content)
+//@   ensures ret >= position || (ret + 1 == position && content[ret] != nl && isNL(content[ret]) && isNL(nl) && (position < len(content) ==> content[position] == nl))
+//@   ensures forall j :: position <= j && j < ret ==> content[j] != nl
+//@   ensures ret >= position && ret < len(content) ==> content[ret] == nl || (content[ret] != nl && isNL(content[ret]) && isNL(nl) && (ret + 1 == len(content) || content[ret+1] == nl))
+//@   loop 1 invariant position <= i && i <= len(content)
+//@   loop 1 invariant forall j :: position <= j && j < i ==> content[j] != nl
+//@   loop 1 decreases len(content) - i
+
+//@ func LineNumber
+//@   tag C02
+//@   pure
+//@   ensures len(content) == 0 ==> ret == 1
+//@   ensures len(content) > 0 ==> ret == 1 + cntNL(content, nl, clampPos(content, position) + 1) - ((position < len(content) && content[position] == nl) ? 1 : 0)
+//@   loop 1 invariant i < len(content) && i <= position && max == len(content) - 1 && i <= max
+//@   loop 1 invariant n + i <= clampPos(content, position)
+//@   loop 1 invariant n == cntNL(content, nl, clampPos(content, position) + 1) - cntNL(content, nl, i + 1) - ((i < position && position < len(content) && content[position] == nl) ? 1 : 0)
+//@   loop 1 decreases i
+
+//@ func quote
+//@   tag C02
+//@   pure
+//@   requires position <= len(content) && lineBeginning <= len(content)
+//@   requires position < len(content) ==> lineBeginning <= position
+//@   requires lineBeginning == 0 || content[lineBeginning-1] == nl
+//@   ensures len(ret) <= 200
+
+//@ func NewLocation
+//@   tag C02
+//@   pure
+//@   requires f != nil && i <= len(f.content)
+//@   ensures ret.file == f && ret.index == i && len(ret.quote) <= 200
+//@   ensures exists nl byte :: isNL(nl) && (len(f.content) == 0 ==> ret.line == 1)
+//@             && (len(f.content) > 0 ==> ret.line == 1 + cntNL(f.content, nl, clampPos(f.content, i) + 1) - ((i < len(f.content) && f.content[i] == nl) ? 1 : 0))
+
+//@ func NewJApiError
+//@   tag C02
+//@   requires f != nil && i <= len(f.content)
+//@   modifies nothing
+//@   ensures ret != nil && ret.Msg == msg && ret.file == f && ret.index == i && len(ret.includeTrace) == 0 && ret.wrapped == nil
+
+//@ func (*JApiError).OccurredInFile
+//@   tag C02
+//@   requires e != nil && f != nil && atByte <= len(f.content)
+//@   modifies e.includeTrace
+//@   ensures len(e.includeTrace) == old(len(e.includeTrace)) + 1
+//@   ensures e.includeTrace[len(e.includeTrace)-1].path == f.name
+//@   ensures forall k :: 0 <= k && k < old(len(e.includeTrace)) ==> e.includeTrace[k] == old(e.includeTrace[k])
